@@ -22,7 +22,7 @@ TARGET = 'checks.c02:run'
 # leaf -> (in space, out space)
 LEAVES = {
     'P': ('a', 'a'), 'Q': ('a', 'a'), 'PQ': ('a', 'a'), 'PpQ': ('a', 'a'), 'I': ('a', 'a'), 'K': ('a', 'a'), 'Km': ('a', 'a'),
-    'D': ('a', 'a'), 'Di': ('a', 'a'), 'S': ('a', 'a'), 'Si': ('a', 'a'),
+    'D': ('a', 'a'), 'Di': ('a', 'a'), 'S': ('a', 'a'), 'Si': ('a', 'a'), 'SPQ': ('a', 'a'), 'DPQ': ('a', 'a'), 'Ii': ('ai', 'ai'), 'Di32': ('ai', 'ai'),
     'G': ('a', 'b'), 'W': ('b', 'a'), 'Ib': ('b', 'b'), 'Kb': ('b', 'b'),
     'R': ('s', 's'), 'Rt': ('s', 's'), 'H': ('s', 's'), 'Is': ('s', 's'),
     'It': ('t', 't'), 'Kt': ('t', 't'), 'Dt': ('t', 't'),
@@ -30,10 +30,11 @@ LEAVES = {
     'Itp': ('tp', 'tp'), 'Ktp': ('tp', 'tp'), 'Btp': ('tp', 'tp'), 'Ctp': ('a', 'tp'), 'Rtp': ('tp', 'a'),
     'Idc': ('dc', 'dc'), 'Kdc': ('dc', 'dc'), 'Bdc': ('dc', 'dc'), 'Cdc': ('a', 'dc'), 'Rdc': ('dc', 'a'),
 }
-CORE = ['P', 'Q', 'PQ', 'PpQ', 'I', 'K', 'D', 'Di', 'Si', 'G', 'W']
+CORE = ['P', 'Q', 'PQ', 'PpQ', 'I', 'K', 'D', 'Di', 'Si', 'G', 'W', 'SPQ', 'DPQ']
 CORE_THOROUGH = CORE + ['Km', 'S', 'Ib', 'Kb', 'Btp', 'Bdc', 'Ctp', 'Rdc']
-SCALARS = ['int3', 'float.5', 'neg2', 'npf32', 'np0d', 'jnpf32', 'jnp0d', 'jnp1d', 'np1d', 'list']
-SCALAR_OK = {'int3': 3.0, 'float.5': 0.5, 'neg2': -2.0, 'npf32': 1.5, 'np0d': 2.0, 'jnpf32': 0.25, 'jnp0d': 4.0}
+SCALARS = ['int3', 'float.5', 'neg2', 'npf32', 'np0d', 'jnpf32', 'jnp0d', 'pyc', 'npc64', 'jnpc64', 'jnp1d', 'np1d', 'list']
+SCALAR_OK = {'int3': 3.0, 'float.5': 0.5, 'neg2': -2.0, 'npf32': 1.5, 'np0d': 2.0, 'jnpf32': 0.25, 'jnp0d': 4.0,
+             'pyc': 2 + 1j, 'npc64': 0.5 + 2j, 'jnpc64': 1 - 1j}
 BIN = ['@', '+', '-']
 SINGULAR = {'Dz': ('a', 'a'), 'Dzi': ('a', 'a')}
 
@@ -145,6 +146,11 @@ def env():
         'It': IdentityOperator(t), 'Kt': hom(-2.0, t), 'Dt': DiagonalOperator(jnp.asarray([2.0, -4.0], f32), axis_destination=0, in_structure=t),
         'Dz': Dz, 'Dzi': Dz.I,
     }
+    ai = jax.ShapeDtypeStruct((2,), jnp.int32)
+    leaves['SPQ'] = S @ Pm @ Qm     # three operands whose head is the very object Si inverts
+    leaves['DPQ'] = D @ Pm @ Qm
+    leaves['Ii'] = IdentityOperator(ai)   # integer-valued data: a fractional factor must not be truncated
+    leaves['Di32'] = DiagonalOperator(jnp.asarray([2, -3], jnp.int32), in_structure=ai)
     from furax._base.blocks import BlockColumnOperator, BlockDiagonalOperator, BlockRowOperator
 
     tp, dc = (a, a), {'a': a, 'b': a}
@@ -156,7 +162,7 @@ def env():
     mats = {n: P.probe(op, cache=False).M for n, op in leaves.items()}
     scal = {
         'int3': 3, 'float.5': 0.5, 'neg2': -2.0, 'npf32': np.float32(1.5), 'np0d': np.array(2.0, np.float32),
-        'jnpf32': jnp.float32(0.25), 'jnp0d': jnp.asarray(4.0, f32), 'jnp1d': jnp.asarray([2.0, 3.0], f32),
+        'jnpf32': jnp.float32(0.25), 'jnp0d': jnp.asarray(4.0, f32), 'pyc': 2 + 1j, 'npc64': np.complex64(0.5 + 2j), 'jnpc64': jnp.asarray(1 - 1j, jnp.complex64), 'jnp1d': jnp.asarray([2.0, 3.0], f32),
         'np1d': np.array([2.0, 3.0], np.float32), 'list': [2.0, 3.0],
     }
     _E.update(leaves=leaves, mats=mats, scal=scal)
